@@ -220,13 +220,43 @@ theorem prod_replicate' (k d : Nat) : (List.replicate k d).prod = d ^ k := by
   | zero => simp
   | succ k ih => rw [List.replicate_succ, List.prod_cons, ih, pow_succ]; ring
 
-theorem radixNFinish_ok (base : Recipe) (cross : Nat) (hcpos : 0 < cross) (hsm : Smooth7 cross) :
-    ∃ r, radixNFinish base cross = .ok r ∧ r.len = base.len * cross := by
+/-- A predicate on recipes that is preserved by every construction the scalar planner performs
+(with the side conditions the planner guarantees at that point).  The totality proof below is carried out for an
+arbitrary such `Q`, so that it yields "the planned tree satisfies `Q`" for free: `Q := fun _ => True` gives plain
+totality (C04), `Q := SpecOK ty` gives "no constructor assert fires" (`Props/C04Spec.lean`). -/
+structure ScalarClosed (Q : Recipe → Prop) : Prop where
+  dft : ∀ n, n < 2 → Q (.dft n)
+  bfly : ∀ b, scalarButterflies.contains b = true → Q (.bfly b)
+  gtSmall : ∀ a b, Q a → Q b → a.len < 33 → b.len < 33 → Nat.gcd a.len b.len = 1 → Q (.goodThomasSmall a b)
+  mrSmall : ∀ a b, Q a → Q b → a.len < 33 → b.len < 33 → Q (.mixedRadixSmall a b)
+  mixedRadix : ∀ a b, Q a → Q b → 33 ≤ a.len * b.len → Q (.mixedRadix a b)
+  raders : ∀ i, Q i → Nat.Prime (i.len + 1) → 33 ≤ i.len + 1 → Q (.raders i)
+  bluesteins : ∀ n i, Q i → 33 ≤ n → 2 * n - 1 ≤ i.len → Q (.bluesteins n i)
+  radixN : ∀ fs b, Q b → 0 < fs.foldl (· * ·) 1 → Q (.radixN fs b)
+  radix4 : ∀ k b, Q b → Q (.radix4 k b)
+
+theorem ScalarClosed.trivial : ScalarClosed (fun _ => True) := by
+  constructor <;> intros <;> trivial
+
+theorem prod_pos_of_forall_pos (l : List Nat) (h : ∀ x ∈ l, 0 < x) : 0 < l.prod := by
+  induction l with
+  | nil => simp
+  | cons x l ih =>
+    rw [List.prod_cons]
+    exact Nat.mul_pos (h x (List.mem_cons_self ..)) (ih (fun y hy => h y (List.mem_cons_of_mem _ hy)))
+
+theorem productButterflies_lt : ∀ x ∈ scalarProductButterflies, x < 33 := by decide
+
+theorem prime_lt_33_bfly : ∀ n, n < 33 → Nat.Prime n → scalarButterflies.contains n = true := by decide
+
+theorem radixNFinish_ok (Q : Recipe → Prop) (hQ : ScalarClosed Q) (base : Recipe) (cross : Nat)
+    (hcpos : 0 < cross) (hsm : Smooth7 cross) (hqb : Q base) :
+    ∃ r, radixNFinish base cross = .ok r ∧ r.len = base.len * cross ∧ Q r := by
   unfold radixNFinish
   simp only
   by_cases hc : isPowerOfTwo cross = true ∧ trailingZeros cross % 2 = 0
   · rw [if_pos hc]
-    refine ⟨_, rfl, ?_⟩
+    refine ⟨_, rfl, ?_, hQ.radix4 _ _ hqb⟩
     have := isPowerOfTwo_eq hc.1
     simp only [Recipe.len]
     congr 1
@@ -259,7 +289,17 @@ theorem radixNFinish_ok (base : Recipe) (cross : Nat) (hcpos : 0 < cross) (hsm :
     subst hj
     rw [isPowerOfTwo_pow, trailingZeros_pow]
     simp only [not_true_eq_false, if_false]
-    refine ⟨_, rfl, ?_⟩
+    refine ⟨_, rfl, ?_, hQ.radixN _ _ hqb ?_⟩
+    swap
+    · rw [foldl_mul_eq_prod, Nat.one_mul]
+      apply prod_pos_of_forall_pos
+      intro x hx
+      simp only [List.mem_append, List.mem_replicate] at hx
+      rcases hx with ((((⟨_, rfl⟩ | ⟨_, rfl⟩) | ⟨_, rfl⟩) | ⟨_, rfl⟩) | hx) | ⟨_, rfl⟩
+      any_goals omega
+      split at hx
+      · simp only [List.mem_singleton] at hx; omega
+      · simp at hx
     simp only [Recipe.len, foldl_mul_eq_prod, List.prod_append, prod_replicate', Nat.one_mul]
     rw [e7, e6, e5, e3]
     have e2 : 2 ^ j = (if j % 2 = 1 then [2] else []).prod * 4 ^ (j / 2) := by
@@ -272,17 +312,18 @@ theorem radixNFinish_ok (base : Recipe) (cross : Nat) (hcpos : 0 < cross) (hsm :
       · simp only [List.prod_nil, Nat.one_mul]; congr 1; omega
     rw [e2]; ring
 
-theorem radixNTail_ok (fuel : Nat) (f : PrimeFactors) (b : Nat) (hpos : 0 < f.n) (hb : 0 < b)
+theorem radixNTail_ok (Q : Recipe → Prop) (hQ : ScalarClosed Q) (fuel : Nat) (f : PrimeFactors) (b : Nat)
+    (hpos : 0 < f.n) (hb : 0 < b)
     (hdiv : b ∣ f.n) (hsm : Smooth7 (f.n / b))
-    (hbase : ∃ r, scalarForLen fuel b = .ok r ∧ r.len = b) :
-    ∃ r, radixNTail fuel f b = .ok r ∧ r.len = f.n := by
-  obtain ⟨base, hbase, hlen⟩ := hbase
+    (hbase : ∃ r, scalarForLen fuel b = .ok r ∧ r.len = b ∧ Q r) :
+    ∃ r, radixNTail fuel f b = .ok r ∧ r.len = f.n ∧ Q r := by
+  obtain ⟨base, hbase, hlen, hqb⟩ := hbase
   unfold radixNTail
   rw [if_neg (by omega), hbase]
   have hcross : b * (f.n / b) = f.n := Nat.mul_div_cancel' hdiv
   have hcpos : 0 < f.n / b := Nat.div_pos (Nat.le_of_dvd hpos hdiv) hb
-  obtain ⟨r, hr, hrl⟩ := radixNFinish_ok base (f.n / b) hcpos hsm
-  exact ⟨r, hr, by rw [hrl, hlen, hcross]⟩
+  obtain ⟨r, hr, hrl, hqr⟩ := radixNFinish_ok Q hQ base (f.n / b) hcpos hsm hqb
+  exact ⟨r, hr, by rw [hrl, hlen, hcross], hqr⟩
 
 
 theorem radixNBase_ok (f : PrimeFactors) (h : f.WF) (htot : 2 ≤ f.total)
@@ -387,33 +428,35 @@ theorem radixNBase_ok (f : PrimeFactors) (h : f.WF) (htot : 2 ≤ f.total)
               rw [if_neg (not_not.2 c6)]
               exact fin 5 (by omega) (dvd_of_countOf_pos f h 5 c6) (by decide)
 
-theorem scalarRadixN_ok (F : Nat) (f : PrimeFactors) (h : f.WF) (htot : 2 ≤ f.total)
+theorem scalarRadixN_ok (Q : Recipe → Prop) (hQ : ScalarClosed Q) (F : Nat) (f : PrimeFactors) (h : f.WF)
+    (htot : 2 ≤ f.total)
     (hnb : scalarButterflies.contains f.n = false) (hleq : f.hasFactorsLeq 7 = true)
     (hbase : f.hasFactorsGt 7 = true → f.productAbove 7 * 2 ≤ f.n →
-       ∃ r, scalarForLen (F + 2) (f.productAbove 7) = .ok r ∧ r.len = f.productAbove 7) :
-    ∃ r, scalarRadixN (F + 3) f = .ok r ∧ r.len = f.n := by
+       ∃ r, scalarForLen (F + 2) (f.productAbove 7) = .ok r ∧ r.len = f.productAbove 7 ∧ Q r) :
+    ∃ r, scalarRadixN (F + 3) f = .ok r ∧ r.len = f.n ∧ Q r := by
   obtain ⟨b, hb, hbpos, hdiv, hsm, hcase⟩ := radixNBase_ok f h htot hnb hleq
   rw [scalarRadixN_eq, hb]
   simp only
-  apply radixNTail_ok (F + 2) f b h.pos hbpos hdiv hsm
+  apply radixNTail_ok Q hQ (F + 2) f b h.pos hbpos hdiv hsm
   rcases hcase with ⟨hgt, rfl, hle⟩ | hbf
   · exact hbase hgt hle
-  · exact ⟨_, scalarForLen_bfly F b hbf, rfl⟩
+  · exact ⟨_, scalarForLen_bfly F b hbf, rfl, hQ.bfly b hbf⟩
 
 /-! ### one unfolding of `design_fft_with_factors` -/
 
-theorem scalarWithFactors_step (F n : Nat) (f : PrimeFactors) (h : f.WF) (hn : f.n = n) (h2 : 2 ≤ n)
+theorem scalarWithFactors_step (Q : Recipe → Prop) (hQ : ScalarClosed Q) (F n : Nat) (f : PrimeFactors)
+    (h : f.WF) (hn : f.n = n) (h2 : 2 ≤ n)
     (hPrime : f.isPrime = true → scalarButterflies.contains n = false →
-      ∃ r, scalarPrime (F + 3) n = .ok r ∧ r.len = n)
+      ∃ r, scalarPrime (F + 3) n = .ok r ∧ r.len = n ∧ Q r)
     (hBase : f.hasFactorsGt 7 = true → f.productAbove 7 * 2 ≤ n →
-      ∃ r, scalarForLen (F + 2) (f.productAbove 7) = .ok r ∧ r.len = f.productAbove 7)
+      ∃ r, scalarForLen (F + 2) (f.productAbove 7) = .ok r ∧ r.len = f.productAbove 7 ∧ Q r)
     (hPart : f.hasFactorsLeq 7 = false → ∀ g : PrimeFactors, g.WF → 1 < g.n → g.n * 2 ≤ n →
-      ∃ r, scalarWithFactors (F + 2) g.n g = .ok r ∧ r.len = g.n) :
-    ∃ r, scalarWithFactors (F + 4) n f = .ok r ∧ r.len = n := by
+      ∃ r, scalarWithFactors (F + 2) g.n g = .ok r ∧ r.len = g.n ∧ Q r) :
+    ∃ r, scalarWithFactors (F + 4) n f = .ok r ∧ r.len = n ∧ Q r := by
   subst hn
   rw [scalarWithFactors]
   by_cases hb : scalarButterflies.contains f.n = true
-  · rw [if_pos hb]; exact ⟨_, rfl, rfl⟩
+  · rw [if_pos hb]; exact ⟨_, rfl, rfl, hQ.bfly _ hb⟩
   rw [if_neg hb]
   have hb' : scalarButterflies.contains f.n = false := by simpa using hb
   by_cases hp : f.isPrime = true
@@ -440,16 +483,19 @@ theorem scalarWithFactors_step (F n : Nat) (f : PrimeFactors) (h : f.WF) (hn : f
           productButterflies_sub l h1
         have hr : scalarButterflies.contains r = true :=
           productButterflies_sub r (by simpa using h2')
+        have hl33 : (Recipe.bfly l).len < 33 := productButterflies_lt l h1
+        have hr33 : (Recipe.bfly r).len < 33 := productButterflies_lt r (by simpa using h2')
         rw [scalarForLen_bfly (F + 1) l hl, scalarForLen_bfly (F + 1) r hr]
         simp only
         split
-        · exact ⟨_, rfl, by simp [Recipe.len, h3]⟩
-        · exact ⟨_, rfl, by simp [Recipe.len, h3]⟩
+        · rename_i hg
+          exact ⟨_, rfl, by simp [Recipe.len, h3], hQ.gtSmall _ _ (hQ.bfly l hl) (hQ.bfly r hr) hl33 hr33 hg⟩
+        · exact ⟨_, rfl, by simp [Recipe.len, h3], hQ.mrSmall _ _ (hQ.bfly l hl) (hQ.bfly r hr) hl33 hr33⟩
   | none =>
     simp only
     by_cases hleq : f.hasFactorsLeq MAX_RADIXN_FACTOR = true
     · rw [if_pos hleq]
-      exact scalarRadixN_ok F f h htot hb' hleq hBase
+      exact scalarRadixN_ok Q hQ F f h htot hb' hleq hBase
     · rw [if_neg hleq]
       have hleq' : f.hasFactorsLeq 7 = false := by
         change ¬ f.hasFactorsLeq 7 = true at hleq; simpa using hleq
@@ -457,18 +503,32 @@ theorem scalarWithFactors_step (F n : Nat) (f : PrimeFactors) (h : f.WF) (hn : f
       rw [hpart]
       simp only
       rw [scalarMixedRadix]
-      obtain ⟨a, ha, hal⟩ := hPart hleq' lf hlwf hl1 (by rw [← hmul]; nlinarith)
-      obtain ⟨b, hb, hbl⟩ := hPart hleq' rf hrwf hr1 (by rw [← hmul]; nlinarith)
+      obtain ⟨a, ha, hal, hqa⟩ := hPart hleq' lf hlwf hl1 (by rw [← hmul]; nlinarith)
+      obtain ⟨b, hb, hbl, hqb⟩ := hPart hleq' rf hrwf hr1 (by rw [← hmul]; nlinarith)
       change scalarWithFactors (F + 2) lf.product lf = .ok a at ha
       change scalarWithFactors (F + 2) rf.product rf = .ok b at hb
       rw [ha, hb]
       simp only
       by_cases c1 : lf.product < 31 ∧ rf.product < 31
       · rw [if_pos c1]
+        have ha33 : a.len < 33 := by rw [hal]; exact Nat.lt_trans c1.1 (by decide)
+        have hb33 : b.len < 33 := by rw [hbl]; exact Nat.lt_trans c1.2 (by decide)
         by_cases c2 : lf.product.gcd rf.product = 1
-        · rw [if_pos c2]; exact ⟨_, rfl, by simp [Recipe.len, hal, hbl, hmul]⟩
-        · rw [if_neg c2]; exact ⟨_, rfl, by simp [Recipe.len, hal, hbl, hmul]⟩
-      · rw [if_neg c1]; exact ⟨_, rfl, by simp [Recipe.len, hal, hbl, hmul]⟩
+        · rw [if_pos c2]
+          exact ⟨_, rfl, by simp [Recipe.len, hal, hbl, hmul],
+            hQ.gtSmall a b hqa hqb ha33 hb33 (by rw [hal, hbl]; exact c2)⟩
+        · rw [if_neg c2]
+          exact ⟨_, rfl, by simp [Recipe.len, hal, hbl, hmul], hQ.mrSmall a b hqa hqb ha33 hb33⟩
+      · rw [if_neg c1]
+        refine ⟨_, rfl, by simp [Recipe.len, hal, hbl, hmul], hQ.mixedRadix a b hqa hqb ?_⟩
+        rw [hal, hbl]
+        have c1' : ¬ (lf.n < 31 ∧ rf.n < 31) := c1
+        rcases Nat.lt_or_ge lf.n 31 with hlt | hge
+        · have : 31 ≤ rf.n := by omega
+          calc 33 ≤ 2 * 31 := by decide
+            _ ≤ lf.n * rf.n := Nat.mul_le_mul hl1 this
+        · calc 33 ≤ 31 * 2 := by decide
+            _ ≤ lf.n * rf.n := Nat.mul_le_mul hge hr1
 
 /-! ### lengths `2^a·3^b` (the Bluestein inner lengths) need only constant fuel -/
 
@@ -489,10 +549,11 @@ theorem others_nil_of_dvd_six_pow (f : PrimeFactors) (h : f.WF) (k : Nat) (hd : 
     · rw [e] at h2; omega
     · have := hxe.2.2; rw [e] at this; revert this; decide
 
-theorem scalarWithFactors_smooth6 (F n : Nat) (f : PrimeFactors) (h : f.WF) (hn : f.n = n) (h2 : 2 ≤ n)
-    (k : Nat) (hs : n ∣ 6 ^ k) : ∃ r, scalarWithFactors (F + 4) n f = .ok r ∧ r.len = n := by
+theorem scalarWithFactors_smooth6 (Q : Recipe → Prop) (hQ : ScalarClosed Q) (F n : Nat) (f : PrimeFactors)
+    (h : f.WF) (hn : f.n = n) (h2 : 2 ≤ n)
+    (k : Nat) (hs : n ∣ 6 ^ k) : ∃ r, scalarWithFactors (F + 4) n f = .ok r ∧ r.len = n ∧ Q r := by
   have hnil := others_nil_of_dvd_six_pow f h k (hn ▸ hs)
-  apply scalarWithFactors_step F n f h hn h2
+  apply scalarWithFactors_step Q hQ F n f h hn h2
   · intro hp hnb
     exfalso
     have hpr : Nat.Prime n := hn ▸ h.isPrime_iff.1 hp
@@ -514,15 +575,15 @@ theorem scalarWithFactors_smooth6 (F n : Nat) (f : PrimeFactors) (h : f.WF) (hn 
     rw [hnil, hleq.1, hleq.2, hn] at hpe
     simp at hpe; omega
 
-theorem scalarForLen_smooth6 (F n k : Nat) (hs : n ∣ 6 ^ k) :
-    ∃ r, scalarForLen (F + 5) n = .ok r ∧ r.len = n := by
+theorem scalarForLen_smooth6 (Q : Recipe → Prop) (hQ : ScalarClosed Q) (F n k : Nat) (hs : n ∣ 6 ^ k) :
+    ∃ r, scalarForLen (F + 5) n = .ok r ∧ r.len = n ∧ Q r := by
   rw [scalarForLen]
   by_cases h2 : n < 2
-  · rw [if_pos h2]; exact ⟨_, rfl, rfl⟩
+  · rw [if_pos h2]; exact ⟨_, rfl, rfl, hQ.dft n h2⟩
   · rw [if_neg h2]
     obtain ⟨f, hf, hwf, hfn, _⟩ := compute_spec n (by omega)
     rw [hf]
-    exact scalarWithFactors_smooth6 F n f hwf hfn (by omega) k hs
+    exact scalarWithFactors_smooth6 Q hQ F n f hwf hfn (by omega) k hs
 
 theorem pow2_dvd_six_pow (M k : Nat) (hk : M = 2 ^ k ∨ M = 3 * 2 ^ k) : M ∣ 6 ^ (k + 1) := by
   have e : (6 : Nat) ^ (k + 1) = 3 * 2 ^ k * (2 * 3 ^ k) := by
@@ -538,38 +599,44 @@ theorem bluestein_inner_dvd (len : Nat) (h : 1 ≤ len) : ∃ k, bluesteinInnerL
 
 /-! ### the scalar planner never fails -/
 
-theorem scalarWithFactors_ok : ∀ n, 2 ≤ n → ∀ F, 2 * n + 8 ≤ F → ∀ f : PrimeFactors, f.WF → f.n = n →
-    ∃ r, scalarWithFactors F n f = .ok r ∧ r.len = n := by
+theorem scalarWithFactors_ok (Q : Recipe → Prop) (hQ : ScalarClosed Q) :
+    ∀ n, 2 ≤ n → ∀ F, 2 * n + 8 ≤ F → ∀ f : PrimeFactors, f.WF → f.n = n →
+    ∃ r, scalarWithFactors F n f = .ok r ∧ r.len = n ∧ Q r := by
   intro n
   induction n using Nat.strong_induction_on with
   | _ n ih =>
     intro h2 F hF f hwf hfn
     obtain ⟨F', rfl⟩ : ∃ F', F = F' + 4 := ⟨F - 4, by omega⟩
-    apply scalarWithFactors_step F' n f hwf hfn h2
+    apply scalarWithFactors_step Q hQ F' n f hwf hfn h2
     · -- design_prime
       intro hp hnb
-      have hn3 : 3 ≤ n := by
+      have hpr : Nat.Prime n := hfn ▸ hwf.isPrime_iff.1 hp
+      have hn33 : 33 ≤ n := by
         by_contra hc
-        have : n = 2 := by omega
-        subst this; revert hnb; decide
+        have := prime_lt_33_bfly n (by omega) hpr
+        rw [hnb] at this; cases this
+      have hn3 : 3 ≤ n := by omega
       obtain ⟨rf, hrf, hrwf, hrn, _⟩ := compute_spec (n - 1) (by omega)
       rw [scalarPrime, hrf]
       simp only
       split
       · obtain ⟨k, hk⟩ := bluestein_inner_dvd n (by omega)
         obtain ⟨F'', hF''⟩ : ∃ F'', F' + 2 = F'' + 5 := ⟨F' - 3, by omega⟩
-        obtain ⟨inner, hi, _⟩ := scalarForLen_smooth6 F'' (bluesteinInnerLen n) k hk
+        obtain ⟨inner, hi, hil, hqi⟩ := scalarForLen_smooth6 Q hQ F'' (bluesteinInnerLen n) k hk
         rw [hF'', hi]
-        exact ⟨_, rfl, rfl⟩
-      · obtain ⟨inner, hi, hil⟩ := ih (n - 1) (by omega) (by omega) (F' + 2) (by omega) rf hrwf hrn
+        have hbound := (bluesteinInnerLen_spec n (by omega)).2.1
+        exact ⟨_, rfl, rfl, hQ.bluesteins n inner hqi hn33 (by rw [hil]; exact hbound)⟩
+      · obtain ⟨inner, hi, hil, hqi⟩ := ih (n - 1) (by omega) (by omega) (F' + 2) (by omega) rf hrwf hrn
         rw [hi]
-        exact ⟨_, rfl, by simp only [Recipe.len]; omega⟩
+        have hil1 : inner.len + 1 = n := by omega
+        exact ⟨_, rfl, by simp only [Recipe.len]; omega,
+          hQ.raders inner hqi (by rw [hil1]; exact hpr) (by omega)⟩
     · -- the base of design_radixn
       intro _ hle
       generalize f.productAbove 7 = b at *
       rw [scalarForLen]
       by_cases hb2 : b < 2
-      · rw [if_pos hb2]; exact ⟨_, rfl, rfl⟩
+      · rw [if_pos hb2]; exact ⟨_, rfl, rfl, hQ.dft b hb2⟩
       · rw [if_neg hb2]
         obtain ⟨fb, hfb, hbwf, hbn, _⟩ := compute_spec b (by omega)
         rw [hfb]
@@ -578,16 +645,22 @@ theorem scalarWithFactors_ok : ∀ n, 2 ≤ n → ∀ F, 2 * n + 8 ≤ F → ∀
       intro _ g hgwf hg1 hgle
       exact ih g.n (by omega) (by omega) (F' + 2) (by omega) g hgwf rfl
 
-theorem scalarForLen_ok (n F : Nat) (hF : 2 * n + 9 ≤ F) :
-    ∃ r, scalarForLen F n = .ok r ∧ r.len = n := by
+/-- the planned tree satisfies every predicate that the planner's constructions preserve -/
+theorem scalarForLen_okQ (Q : Recipe → Prop) (hQ : ScalarClosed Q) (n F : Nat) (hF : 2 * n + 9 ≤ F) :
+    ∃ r, scalarForLen F n = .ok r ∧ r.len = n ∧ Q r := by
   obtain ⟨F', rfl⟩ : ∃ F', F = F' + 1 := ⟨F - 1, by omega⟩
   rw [scalarForLen]
   by_cases h2 : n < 2
-  · rw [if_pos h2]; exact ⟨_, rfl, rfl⟩
+  · rw [if_pos h2]; exact ⟨_, rfl, rfl, hQ.dft n h2⟩
   · rw [if_neg h2]
     obtain ⟨f, hf, hwf, hfn, _⟩ := compute_spec n (by omega)
     rw [hf]
-    exact scalarWithFactors_ok n (by omega) F' (by omega) f hwf hfn
+    exact scalarWithFactors_ok Q hQ n (by omega) F' (by omega) f hwf hfn
+
+theorem scalarForLen_ok (n F : Nat) (hF : 2 * n + 9 ≤ F) :
+    ∃ r, scalarForLen F n = .ok r ∧ r.len = n := by
+  obtain ⟨r, h1, h2, _⟩ := scalarForLen_okQ _ ScalarClosed.trivial n F hF
+  exact ⟨r, h1, h2⟩
 
 /-! ## The SSE planner (`FftPlannerSse`) -/
 
@@ -926,5 +999,226 @@ theorem sseForLen_ok (n F : Nat) (hF : 2 * n + 9 ≤ F) :
     obtain ⟨f, hf, hwf, hfn, _⟩ := compute_spec n (by omega)
     rw [hf]
     exact sseWithFactors_ok n (by omega) F' (by omega) f hwf hfn
+
+/-! ## More fuel never changes a successful result -/
+
+/-! ### fuel monotonicity (scalar) -/
+
+theorem scalar_mono (F : Nat) :
+    (∀ n r, scalarForLen F n = .ok r → scalarForLen (F + 1) n = .ok r) ∧
+    (∀ n f r, scalarWithFactors F n f = .ok r → scalarWithFactors (F + 1) n f = .ok r) ∧
+    (∀ l rf r, scalarMixedRadix F l rf = .ok r → scalarMixedRadix (F + 1) l rf = .ok r) ∧
+    (∀ f r, scalarRadixN F f = .ok r → scalarRadixN (F + 1) f = .ok r) ∧
+    (∀ n r, scalarPrime F n = .ok r → scalarPrime (F + 1) n = .ok r) := by
+  induction F with
+  | zero =>
+    refine ⟨?_, ?_, ?_, ?_, ?_⟩
+    · intro n r h; rw [scalarForLen] at h; cases h
+    · intro n f r h; rw [scalarWithFactors] at h; cases h
+    · intro l rf r h; rw [scalarMixedRadix] at h; cases h
+    · intro f r h; rw [scalarRadixN] at h; cases h
+    · intro n r h; rw [scalarPrime] at h; cases h
+  | succ F ih =>
+    obtain ⟨ih1, ih2, ih3, ih4, ih5⟩ := ih
+    refine ⟨?_, ?_, ?_, ?_, ?_⟩
+    · intro n r h
+      rw [scalarForLen] at h ⊢
+      split
+      · rename_i hc; rw [if_pos hc] at h; exact h
+      · rename_i hc; rw [if_neg hc] at h
+        cases hcmp : PrimeFactors.compute n with
+        | error e => rw [hcmp] at h; cases h
+        | ok f => rw [hcmp] at h; exact ih2 _ _ _ h
+    · intro n f r h
+      rw [scalarWithFactors] at h ⊢
+      split
+      · rename_i hc; rw [if_pos hc] at h; exact h
+      · rename_i hc; rw [if_neg hc] at h
+        split
+        · rename_i hp; rw [if_pos hp] at h; exact ih5 _ _ h
+        · rename_i hp; rw [if_neg hp] at h
+          revert h
+          generalize (if n > 992 ∨ isPowerOfTwo n = true then (none : Option (Nat × Nat))
+            else butterflyProductSearch n (ceilSqrt n + 1) scalarProductButterflies (2 ^ 64) none) = prod
+          intro h
+          cases prod with
+          | some lr =>
+            obtain ⟨l, r'⟩ := lr
+            simp only at h ⊢
+            cases h1 : scalarForLen F l with
+            | error e => rw [h1] at h; cases h
+            | ok a =>
+              cases h2 : scalarForLen F r' with
+              | error e => rw [h1, h2] at h; cases h
+              | ok b => rw [h1, h2] at h; rw [ih1 _ _ h1, ih1 _ _ h2]; exact h
+          | none =>
+            simp only at h ⊢
+            split
+            · rename_i hl; rw [if_pos hl] at h; exact ih4 _ _ h
+            · rename_i hl; rw [if_neg hl] at h
+              cases hpart : f.partition with
+              | error e => rw [hpart] at h; cases h
+              | ok lr => rw [hpart] at h; exact ih3 _ _ _ h
+    · intro l rf r h
+      rw [scalarMixedRadix] at h ⊢
+      cases h1 : scalarWithFactors F l.product l with
+      | error e => rw [h1] at h; cases h
+      | ok a =>
+        cases h2 : scalarWithFactors F rf.product rf with
+        | error e => rw [h1, h2] at h; cases h
+        | ok b => rw [h1, h2] at h; rw [ih2 _ _ _ h1, ih2 _ _ _ h2]; exact h
+    · intro f r h
+      rw [scalarRadixN_eq] at h ⊢
+      cases hb : radixNBase f with
+      | error e => rw [hb] at h; cases h
+      | ok b =>
+        rw [hb] at h
+        simp only at h ⊢
+        unfold radixNTail at h ⊢
+        split
+        · rename_i hc; rw [if_pos hc] at h; exact h
+        · rename_i hc; rw [if_neg hc] at h
+          cases h1 : scalarForLen F b with
+          | error e => rw [h1] at h; cases h
+          | ok base => rw [h1] at h; rw [ih1 _ _ h1]; exact h
+    · intro n r h
+      rw [scalarPrime] at h ⊢
+      cases hcmp : PrimeFactors.compute (n - 1) with
+      | error e => rw [hcmp] at h; cases h
+      | ok rf =>
+        rw [hcmp] at h
+        simp only at h ⊢
+        split
+        · rename_i hc; rw [if_pos hc] at h
+          cases h1 : scalarForLen F (bluesteinInnerLen n) with
+          | error e => rw [h1] at h; cases h
+          | ok inner => rw [h1] at h; rw [ih1 _ _ h1]; exact h
+        · rename_i hc; rw [if_neg hc] at h
+          cases h1 : scalarWithFactors F (n - 1) rf with
+          | error e => rw [h1] at h; cases h
+          | ok inner => rw [h1] at h; rw [ih2 _ _ _ h1]; exact h
+
+theorem scalarForLen_mono {F F' n : Nat} {r : Recipe} (hle : F ≤ F') (h : scalarForLen F n = .ok r) :
+    scalarForLen F' n = .ok r := by
+  induction hle with
+  | refl => exact h
+  | step _ ih => exact (scalar_mono _).1 _ _ ih
+
+/-! ### fuel monotonicity (SSE) -/
+
+theorem sse_mono (F : Nat) :
+    (∀ n r, sseForLen F n = .ok r → sseForLen (F + 1) n = .ok r) ∧
+    (∀ n f r, sseWithFactors F n f = .ok r → sseWithFactors (F + 1) n f = .ok r) ∧
+    (∀ l rf r, sseMixedRadix F l rf = .ok r → sseMixedRadix (F + 1) l rf = .ok r) ∧
+    (∀ f r, sseRadix4 F f = .ok r → sseRadix4 (F + 1) f = .ok r) ∧
+    (∀ n r, ssePrime F n = .ok r → ssePrime (F + 1) n = .ok r) := by
+  induction F with
+  | zero =>
+    refine ⟨?_, ?_, ?_, ?_, ?_⟩
+    · intro n r h; rw [sseForLen] at h; cases h
+    · intro n f r h; rw [sseWithFactors] at h; cases h
+    · intro l rf r h; rw [sseMixedRadix] at h; cases h
+    · intro f r h; rw [sseRadix4] at h; cases h
+    · intro n r h; rw [ssePrime] at h; cases h
+  | succ F ih =>
+    obtain ⟨ih1, ih2, ih3, ih4, ih5⟩ := ih
+    refine ⟨?_, ?_, ?_, ?_, ?_⟩
+    · intro n r h
+      rw [sseForLen] at h ⊢
+      split
+      · rename_i hc; rw [if_pos hc] at h; exact h
+      · rename_i hc; rw [if_neg hc] at h
+        cases hcmp : PrimeFactors.compute n with
+        | error e => rw [hcmp] at h; cases h
+        | ok f => rw [hcmp] at h; exact ih2 _ _ _ h
+    · intro n f r h
+      rw [sseWithFactors] at h ⊢
+      cases hbf : sseButterfly n with
+      | some b => rw [hbf] at h; exact h
+      | none =>
+        rw [hbf] at h
+        simp only at h ⊢
+        split
+        · rename_i hp; rw [if_pos hp] at h; exact ih5 _ _ h
+        · rename_i hp; rw [if_neg hp] at h
+          split
+          · rename_i htz; rw [if_pos htz] at h
+            split
+            · rename_i hr; rw [if_pos hr] at h; exact ih4 _ _ h
+            · rename_i hr; rw [if_neg hr] at h
+              cases hrem : f.removeFactors ⟨2, trailingZeros n⟩ with
+              | error e => rw [hrem] at h; cases h
+              | ok o =>
+                rw [hrem] at h
+                cases o with
+                | none => cases h
+                | some npt =>
+                  simp only at h ⊢
+                  cases hcmp : PrimeFactors.compute (2 ^ trailingZeros n) with
+                  | error e => rw [hcmp] at h; cases h
+                  | ok pt => rw [hcmp] at h; exact ih3 _ _ _ h
+          · rename_i htz; rw [if_neg htz] at h
+            revert h
+            generalize (if n > 13 ∧ n ≤ 1024 then ssePairSearch n sseAllButterflies (0, 0) else (0, 0)) = P
+            intro h
+            split
+            · rename_i hpair; rw [if_pos hpair] at h
+              cases h1 : PrimeFactors.compute P.1 with
+              | error e => rw [h1] at h; cases h
+              | ok fl =>
+                cases h2 : PrimeFactors.compute P.2 with
+                | error e => rw [h1, h2] at h; cases h
+                | ok fr => rw [h1, h2] at h; exact ih3 _ _ _ h
+            · rename_i hpair; rw [if_neg hpair] at h
+              cases hpart : f.partition with
+              | error e => rw [hpart] at h; cases h
+              | ok lr => rw [hpart] at h; exact ih3 _ _ _ h
+    · intro l rf r h
+      rw [sseMixedRadix] at h ⊢
+      cases h1 : sseWithFactors F l.product l with
+      | error e => rw [h1] at h; cases h
+      | ok a =>
+        cases h2 : sseWithFactors F rf.product rf with
+        | error e => rw [h1, h2] at h; cases h
+        | ok b => rw [h1, h2] at h; rw [ih2 _ _ _ h1, ih2 _ _ _ h2]; exact h
+    · intro f r h
+      rw [sseRadix4_eq] at h ⊢
+      split
+      · rename_i hc; rw [if_pos hc] at h; exact h
+      · rename_i hc; rw [if_neg hc] at h
+        unfold sseRadix4Tail at h ⊢
+        simp only at h ⊢
+        split
+        · rename_i hc; rw [if_pos hc] at h; exact h
+        · rename_i hc; rw [if_neg hc] at h
+          split
+          · rename_i hc; rw [if_pos hc] at h; exact h
+          · rename_i hc; rw [if_neg hc] at h
+            cases h1 : sseForLen F (sseRadix4Base f.p2 f.p3) with
+            | error e => rw [h1] at h; cases h
+            | ok base => rw [h1] at h; rw [ih1 _ _ h1]; exact h
+    · intro n r h
+      rw [ssePrime] at h ⊢
+      cases hcmp : PrimeFactors.compute (n - 1) with
+      | error e => rw [hcmp] at h; cases h
+      | ok rf =>
+        rw [hcmp] at h
+        simp only at h ⊢
+        split
+        · rename_i hc; rw [if_pos hc] at h
+          cases h1 : sseForLen F (bluesteinInnerLen n) with
+          | error e => rw [h1] at h; cases h
+          | ok inner => rw [h1] at h; rw [ih1 _ _ h1]; exact h
+        · rename_i hc; rw [if_neg hc] at h
+          cases h1 : sseWithFactors F (n - 1) rf with
+          | error e => rw [h1] at h; cases h
+          | ok inner => rw [h1] at h; rw [ih2 _ _ _ h1]; exact h
+
+theorem sseForLen_mono {F F' n : Nat} {r : Recipe} (hle : F ≤ F') (h : sseForLen F n = .ok r) :
+    sseForLen F' n = .ok r := by
+  induction hle with
+  | refl => exact h
+  | step _ ih => exact (sse_mono _).1 _ _ ih
+
 
 end RFV
